@@ -47,7 +47,7 @@ impl<'a> Gen<'a> {
             7 => {
                 if let Some(v) = self.loop_vars.last() { v.to_string() } else { self.small() }
             }
-            8 => format!("P({})", self.rng.gen_range(0..=10)),
+            8 => if self.rng.gen_bool(0.8) { format!("P({})", self.rng.gen_range(0..=10)) } else { format!("P(P({}))", self.rng.gen_range(0..=3)) },
             _ => {
                 if !self.fns.is_empty() && self.rng.gen_bool(0.5) {
                     let (name, arity) = self.fns[self.rng.gen_range(0..self.fns.len())];
@@ -196,7 +196,10 @@ impl<'a> Gen<'a> {
                     };
                     let head = format!("FOR {} = {} TO {}{}", v, from, to, step);
                     self.loop_vars.push(v);
-                    if self.rng.gen_bool(0.25) {
+                    if self.rng.gen_bool(0.08) {
+                        // a delay loop: no body at all
+                        self.emit(format!("{} : NEXT {}", head, v));
+                    } else if self.rng.gen_bool(0.25) {
                         // whole loop on one line
                         let body = self.simple();
                         self.emit(format!("{} : {} : NEXT {}", head, body, v));
@@ -312,6 +315,10 @@ impl<'a> Gen<'a> {
                 self.fns.push(("FNB", 1));
                 self.fns.push(("FNC", 2));
             }
+        }
+        if self.rng.gen_bool(0.4) {
+            // a function that fails inside a nested call when given 0 (used by inspections typed at breakpoints)
+            self.emit("DEF FND(Z) = 1/Z : DEF FNE(Z) = FND(Z) + 1".to_string());
         }
         self.has_data = self.rng.gen_bool(0.6);
         let data_first = self.rng.gen_bool(0.5);
